@@ -114,9 +114,31 @@ def run(ctx):
             for nb in (128, 160, 192, 224, 256):
                 fr_ = fresh_term(ev, nb)
                 cases.append(('from_entropy_bits', [T.const(nb), pw, tn], {}, wallet_of(SP.bip39_seed(fr_, pw), fr_, pw)))
+            # hex-text constructors: decided for any text first; a constructor that normalises its text (strips white space,
+            # a 0x prefix) is then decided on canonical hex text - HEX(b) for symbolic bytes b -, where normalisation must be
+            # the identity.  What it accepts beyond the text bytes.fromhex accepts is not the property's business.
+            from ..report import Obligation as _Ob
+            seedh, entb = S('seed_of_hex', type='bytes'), S('entropy_of_hex', type='bytes')
+            canon = {'from_bip39_seed_hex': ([T.raw_op('HEX', seedh), tn], wallet_of(seedh)),
+                     'from_entropy_hex': ([T.raw_op('HEX', entb), pw, tn],
+                                          wallet_of(SP.bip39_seed(T.raw_op('MNEMONIC', T.raw_op('HEX', entb)), pw),
+                                                    T.raw_op('MNEMONIC', T.raw_op('HEX', entb)), pw))}
             for name, args, kw, exp in cases:
                 fi = p.get_function('base_wallet.BaseWallet.' + name)
+                note_canon = None
+                if name in canon and not kw:
+                    probe = _Ob(ctx, 'probe', name, cfg, fi.where)
+                    try:
+                        v0, f0 = ev.call_function('base_wallet.BaseWallet.' + name, [T.clsref(cls)] + args, kw)
+                        same_wallet(probe, ev, v0, f0, cls, exp, 'probe', fi.where)
+                    except Exception:
+                        probe.verdict = 'UNDECIDED'
+                    if probe.verdict in ('VIOLATED', 'UNDECIDED'):
+                        args, exp = canon[name]
+                        note_canon = 'decided on canonical hex text HEX(b): the constructor normalises its text argument'
                 with ctx.obligation('C03.CTOR', 'BaseWallet.' + name, cfg, fi.where) as ob:
+                    if note_canon:
+                        ob.note(note_canon)
                     v, f = ev.call_function('base_wallet.BaseWallet.' + name, [T.clsref(cls)] + args, kw)
                     nl = normal_leaves(v)
                     ob.require(len(nl) >= 1, 'constructor can return a wallet', fi.where)
